@@ -1,6 +1,7 @@
 """C14  Layout diagnostics agree with the text the graph was decoded from."""
 from hypothesis import strategies as st
 
+import penman
 from penman import layout
 from penman.graph import Graph
 from penman.tree import Tree
@@ -85,6 +86,27 @@ def check(case):
     # documented-pure calls on the same graph first: the diagnostics must not depend on them
     layout.configure(g, model=m)
     layout.reconfigure(g, model=m, key=m.canonical_order)
+    if case.get('pre') is not None:
+        # ... including the graph transformations (they return new graphs), and a trip through pickle / deepcopy
+        from penman import transform
+        k = case['pre'] % 6
+        try:
+            if k == 0:
+                transform.reify_attributes(g)
+            elif k == 1:
+                transform.dereify_edges(g, m)
+            elif k == 2:
+                transform.reify_edges(g, m)
+            elif k == 3:
+                transform.indicate_branches(g, m)
+            elif k == 4:
+                import pickle
+                g = pickle.loads(pickle.dumps(g))
+            else:
+                import copy
+                g = copy.deepcopy(g)
+        except penman.exceptions.ModelError:
+            pass
     ctx = layout.node_contexts(g)
     want = [x['ctx'] for x in rd.facts]
     if ctx != want:
@@ -131,6 +153,7 @@ def classes(case):
         return ['skipped:' + why]
     out = ['model:' + case['model'].get('name', 'custom'), 'stripped' if case.get('strip') else 'decoded'] + tree_classes(node)
     out.append('via:' + (case.get('via') or 'interpret'))
+    if case.get('pre') is not None: out.append('before:' + ['reify_attributes', 'dereify_edges', 'reify_edges', 'indicate_branches', 'pickle', 'deepcopy'][case['pre'] % 6])
     if _closes_early(node):
         out.append('closes-early')
     return out
@@ -141,6 +164,8 @@ def _cases(draw, deep=False, large=False):
     spec = draw(models.model_specs(open_patterns=True))
     j = draw(trees.wf_trees(spec, max_nodes=40 if large else (14 if deep else 8), deep=deep, aligned=draw(st.booleans()), wide=14 if large else 3))
     case = {'tree': j, 'model': spec, 'strip': draw(st.integers(0, 4)) == 0}
+    if draw(st.booleans()):
+        case['pre'] = draw(st.integers(0, 5))
     if draw(st.integers(0, 2)) == 0:
         case['via'] = draw(st.sampled_from(VIAS))
     return case
